@@ -242,10 +242,10 @@ Definition sat1 (o : observed) (a : allowance) : bool :=
 (* a finished request meets the table; a running one has shown nothing but a prefix of its data *)
 Definition sat (o : observed) (l : list allowance) : bool := existsb (sat1 o) l.
 
-(* a request that is in the class and completes normally is owed exactly its bytes *)
-Definition healthy (c : rcfg) (s : list ev) : option bytes :=
+(* a request that is in the class and completes normally is owed exactly its bytes, and its trailers iff sent *)
+Definition healthy (c : rcfg) (s : list ev) : option (bytes * bool) :=
   match classify_script c s with
-  | Some [AOk d _ _] => Some d
+  | Some [AOk d _ t] => Some (d, t)
   | _ => None
   end.
 
